@@ -33,6 +33,14 @@ def vmStackUnmarshal (numField len : Nat) : Outcome Unit :=
   if numField > len then .err "not enough values in stack"
   else (List.range numField).foldlM (fun _ i => index len i) ()
 
+/-- which stack position every struct field is filled from: field `i` takes `s[i]` (tlb/stack.go:625-637; the decoded
+stack lists the results of a get-method in the order the method returns them) -/
+def vmStackFieldSources (numField len : Nat) : Outcome (List Nat) :=
+  match vmStackUnmarshal numField len with
+  | .ok _ => .ok (List.range numField)
+  | .err e => .err e
+  | .panic p => .panic p
+
 /-- liteapi decodeAccountDataFromProof: `cells[1]` behind `len(cells) < 2`, then `values[i]` for `i` ranging over
 `keys` (Hashmap.Keys/Values are appended pairwise by mapInner: `nValues = nKeys` for every decoded map) -/
 def accountFromProof (nRoots nKeys nValues hit : Nat) : Outcome Unit :=
